@@ -85,13 +85,13 @@ pub fn profile(name: &str) -> Profile {
         run_bias: 1,
     };
     match name {
-        "C01" => Profile { name: "C01", w_token: 8, reuse_bias: 4, kinds: [4, 3, 3, 4, 1, 1, 0, 5, 0], w_cause: 10, err_returns: true, adapters: 2, ..base },
+        "C01" => Profile { name: "C01", w_token: 8, reuse_bias: 4, kinds: [4, 3, 3, 4, 2, 1, 0, 5, 0], w_cause: 10, err_returns: true, adapters: 2, ..base },
         "C02" => Profile { name: "C02", w_cause: 12, max_sources: 8, kinds: [3, 3, 2, 6, 0, 1, 0, 0, 0], err_returns: true, adapters: 2, ..base },
         "C03" => Profile { name: "C03", kinds: [10, 0, 1, 2, 0, 0, 0, 0, 0], w_cause: 12, err_returns: true, ..base },
         "C04" => Profile { name: "C04", kinds: [1, 10, 1, 1, 0, 0, 0, 0, 0], w_cause: 14, err_returns: true, ..base },
         "C05" => Profile { name: "C05", kinds: [2, 1, 10, 1, 0, 0, 0, 2, 0], w_advance: 6, err_returns: true, ..base },
         "C06" => Profile { name: "C06", w_token: 9, w_insert: 7, reuse_bias: 3, err_returns: true, ..base },
-        "C07" => Profile { name: "C07", w_token: 10, err_returns: true, kinds: [3, 3, 3, 3, 3, 1, 1, 0, 1], ..base },
+        "C07" => Profile { name: "C07", w_token: 10, err_returns: true, scripted_faults: true, kinds: [3, 3, 3, 3, 3, 1, 1, 0, 1], ..base },
         "C08" => Profile { name: "C08", kinds: [3, 3, 3, 3, 1, 3, 1, 0, 0], adapters: 3, script_len: (1, 5), script_ops: (1, 6), w_idle: 4, ..base },
         "C09" => Profile { name: "C09", kinds: [2, 1, 2, 8, 0, 0, 0, 0, 0], err_returns: true, script_len: (1, 5), ..base },
         "C10" => Profile { name: "C10", kinds: [1, 1, 1, 0, 0, 8, 5, 0, 0], w_cause: 14, ..base },
@@ -352,7 +352,7 @@ impl G {
                 }
             }
             14 => self.timer_set_op().into_iter().collect(),
-            15 => vec![Op::Wakeup],
+            15 => vec![if self.rng.chance(1, 3) { Op::Stop } else { Op::Wakeup }],
             16..=19 => self.cause_op().into_iter().collect(),
             _ => {
                 // slot reuse: remove something, insert right away
@@ -475,7 +475,7 @@ impl G {
                 let synth: Vec<bool> = (0..n).map(|_| self.rng.chance(1, 3)).collect();
                 let with_ping = self.rng.chance(2, 3);
                 let two = with_ping && self.rng.chance(1, 2);
-                let fail_step2 = two && (self.p.faults || self.p.scripted_faults) && self.rng.chance(1, 5);
+                let fail_step2 = two && (self.p.faults || self.p.scripted_faults || self.p.name == "C01") && self.rng.chance(1, 5);
                 let keep_rejected = self.rng.chance(2, 3);
                 let sock = self.rng.chance(1, 3);
                 let synth_on_sock = sock && self.rng.chance(2, 3);
@@ -613,7 +613,7 @@ impl G {
                 }
             }
             _ => match self.rng.below(6) {
-                0 => vec![Op::Wakeup],
+                0 => vec![if self.rng.chance(1, 4) { Op::Stop } else { Op::Wakeup }],
                 1 if self.p.scripted_faults => {
                     let Some((id, _, _)) = self.any_src() else { return vec![] };
                     vec![Op::FailNext { id, what: self.rng.range(1, 5) as u8, nth: self.rng.below(2) as u32 }]
@@ -639,9 +639,10 @@ pub fn generate(profile_name: &str, seed: u64) -> Program {
         n *= 4;
     }
     let mut steps = Vec::new();
-    if (p.name == "C02" || p.name == "C01" || p.name == "core") && g.rng.chance(1, 60) {
-        // many simultaneously ready sources
-        let cnt = *g.rng.pick(&[24u32, 64, 200]);
+    if (p.name == "C02" || p.name == "C01" || p.name == "C13" || p.name == "core") && g.rng.chance(1, 60) {
+        // many simultaneously ready sources (now and then more than the poller's event buffer
+        // holds: 1024)
+        let cnt = *g.rng.pick(&[24u32, 64, 200, 200, 1100]);
         let base = g.next_id;
         g.next_id += cnt;
         for i in 0..cnt.min(6) {
@@ -687,7 +688,9 @@ pub fn generate(profile_name: &str, seed: u64) -> Program {
     if p.env_events && g.rng.chance(1, 2) {
         let m = g.rng.range(1, 4);
         for _ in 0..m {
-            if let Some(op) = g.cause_op() {
+            // another thread wakes the loop while it sleeps (or any other cause)
+            let op = if g.rng.chance(1, 5) { Some(Op::Wakeup) } else { g.cause_op() };
+            if let Some(op) = op {
                 if crate::ops::env_allowed(&op) {
                     env.push(EnvEvent { at: g.rng.below(120) * MS + g.rng.below(MS), op });
                 }
